@@ -2,6 +2,7 @@ package interp
 
 import (
 	"fmt"
+	"time"
 	"go/token"
 	"go/types"
 	"runtime"
@@ -246,7 +247,14 @@ func trailLog() string {
 	return strings.Join(CallTrail, " > ")
 }
 
+// PathWallLimit bounds the wall-clock time of one path (seconds); 0 = none.
+var PathWallLimit = 0.0
+var pathStart time.Time
+
 func checkBudget() {
+	if PathWallLimit > 0 && time.Since(pathStart).Seconds() > PathWallLimit {
+		panic(engineAbort{fmt.Sprintf("BOUND-EXCEEDED: path ran longer than %.0fs", PathWallLimit)})
+	}
 	if explorer != nil && explorer.MaxInstrs > 0 && InstrCount-explorer.startInstrs > explorer.MaxInstrs {
 		panic(engineAbort{fmt.Sprintf("BOUND-EXCEEDED: more than %d SSA instructions on one path", explorer.MaxInstrs)})
 	}
